@@ -47,6 +47,11 @@ CHECKS.update({
         "note": M1NOTE + " Dense-time reading as stated in spec/UPTimeSem.tla; plans of <= 3 steps.",
         "technique": "recorded validator verdicts judged by the TLA+ temporal semantics (UPTimeSem) evaluated by TLC",
     },
+    "C11": {
+        "text": "SimplifyJudge.tla decides, with the shared expression semantics (UPExpr!Eval), for every recorded simplification: equal value under ALL interpretations of the leaves on a finite grid (static fluents pinned to their initial values for the problem-relative simplifier), no new free variable, idempotence; large constants (2^53+1, 2^60+2, 10^30, 10^20/3, ...) are judged with BigArith (limb arithmetic in TLA+, checked against native arithmetic by TLC). TLC enumerates typed expressions to depth 2 (Boolean connectives, quantifiers over a type hierarchy incl. capture and sub-typing families, equalities, comparisons, + - * /, static and unary fluents, parameters, variables); e.simplify() and Simplifier(env, problem).simplify(e) are run on each.",
+        "note": TRUST + " Infinite domains are sampled on a finite grid, not decided (no SMT); trajectory operators, Dot and interpreted functions are not in the grammar.",
+        "technique": "TLA+ expression semantics + BigArith evaluated by TLC over TLC-enumerated expressions; recorded simplifications judged on all interpretations of a finite grid",
+    },
     "C12": {
         "text": "NormalForms.tla: IsLiteral / IsNNF / IsDNF and truth-table equivalence over all states of the atoms' fluents, plus a model of dnf.py (as written vs repaired) that TLC checks against the declarative layer. TLC enumerates Boolean expressions (all of depth <= 1 over 8 leaves, all not/binary depth-2 over 4 leaves, a slice of ternary and/or, seeded depth 3; constant-only atoms, equalities, comparisons, implies, iff); Nnf and Dnf are run on each; TLC judges shape and equivalence of both outputs.",
         "note": TRUST + " Depth-2 ternary and depth-3 expressions are sampled, not exhaustive.",
